@@ -32,6 +32,10 @@ def assigned_vars(prog):
             elif s[0] == "if": wb(s[2]); wb(s[3])
             elif s[0] == "while": wb(s[2])
             elif s[0] == "block": wb(s[1])
+            elif s[0] == "for": wb(s[5])
+            elif s[0] == "match":
+                for _, b in s[3]: wb(b)
+                if s[4] is not None: wb(s[4])
     for f in prog: wb(f["body"])
     return out
 
@@ -52,6 +56,11 @@ def max_var(prog):
             elif k == "cassign": we(s[3])
             elif k == "if": we(s[1]); wb(s[2]); wb(s[3])
             elif k == "while": we(s[1]); wb(s[2])
+            elif k == "for": m[0] = max(m[0], s[1]); we(s[3]); we(s[4]); wb(s[5])
+            elif k == "match":
+                we(s[1])
+                for _, b in s[3]: wb(b)
+                if s[4] is not None: wb(s[4])
             elif k == "return" and s[1] is not None: we(s[1])
             elif k == "print":
                 for a in s[1]: we(a)
@@ -103,7 +112,7 @@ def rewrite(prog, kind, rng):
     if kind == "if-true":
         for s in ssites:
             st = s.get()
-            if st[0] in ("assign", "cassign", "inc", "print", "expr", "if", "while", "block"):
+            if st[0] in ("assign", "cassign", "inc", "print", "expr", "if", "while", "block", "for", "match"):
                 s.set(["if", ["bool", True], [st], []])
                 return m, "%s statement wrapped in if true { } at %s" % (st[0], "/".join(s.ctx[-2:]))
     return None
